@@ -8,13 +8,18 @@ import Driver.Common
   aparent rm|cm d0 d1 …           the same for an ACTIVE parent Array<r,double,true> (r ≤ 3); the views stay active
   fparent d0 d1 …                 a FixedArray<int,false,d0,…> parent (4 | 3 4 | 3 3 | 2 3 4 | 2 3 4 5; always row-major); the first successful
                                   view-forming operation is executed by FixedArray's own member and yields an Array
+  efparent d0 d1 …                a FixedArray<int,false,d0,…> driven through its ELEMENT accessors only (3 2 5 4 | 2 3 1 4 5 |
+                                  3 1 4 2 6 5): all-scalar `slice` / `cslice` (rank 1 also `idx` / `cidx`)
+  afparent d0 d1 …                the same for an ACTIVE FixedArray<double,true,d0,…> (4 | 3 4 | 2 3 4 | 3 2 5 4)
   slice A0 A1 …                   A = i:E | r:E,E | s:E,E,E | _
+                                  only scalar arguments: ELEMENT access (`elemAccess` / `fixedElemAccess`), answer a rank-0 view
                                   E = k | eK (= end - K) | end | (E+E) | (E-E) | (E*E) | (E/E) | (E>E) (max) | (E<E) (min)
   every view-forming op and `ix` may carry the prefix `c` (cslice, csubset, cidx, cT, csoftlink, cix): the member
   is then called on a `const` reference (the const overloads have their own copy of the code; same semantics)
   subset E E E E …                begin/end per dimension
   idx E                           operator[]
   T | permute p0 p1 … | diag k | subdiag b e | reshape d0 d1 … | softlink
+  permuteE p0 p1 …                permute(const ExpressionSize<Rank>&);  permuteV p0 p1 … : permute(i0,i1,…) (rank 2..6)
   contig                          is_contiguous() of the current view (state unchanged)
   ix S0 S1 …                      integer-vector indexing A(S0,S1,…) of the current view (state unchanged)
                                   S = i:E | r:E,E | s:E,E,E | _ | v:a,b,… | x:a,b,… | w:K0,K1,… | u:VE:a,b,…
@@ -45,7 +50,8 @@ structure St where
   checked : Bool := false
   vol : Nat := 0
   cur : Option View := none
-  /-- 0: passive `Array`, 1: active `Array`, 2: the `FixedArray` parent itself -/
+  /-- 0: passive `Array`, 1: active `Array`, 2: the `FixedArray` parent itself, 3: a `FixedArray` parent driven through
+      its element accessors only, 4: the same, active -/
   kind : Nat := 0
 
 def opOfChar : Char → Option BinOp
@@ -167,7 +173,7 @@ def describe (v : View) : String :=
 /-- the answer for a view held by an object of this kind (2: the `FixedArray` parent itself, no whole-view operations;
     rank 0: an element) -/
 def describeFull (kind vol : Nat) (v : View) : String :=
-  if kind = 2 ∨ v.dims.isEmpty then describe v else describe v ++ wholeOps vol v
+  if kind ≥ 2 ∨ v.dims.isEmpty then describe v else describe v ++ wholeOps vol v
 
 def parseOp (ws : List String) : Option Op :=
   match ws with
@@ -256,17 +262,18 @@ def describeIx (checked : Bool) (iv : IView) : String :=
 
 /-- calls that do not exist in the C++ for the current object (the harness answers `bad-op`).
     `kind` 0: passive `Array` (ranks ≤ 6 are driven), 1: active `Array` (ranks ≤ 3 are driven),
-    2: the `FixedArray` parent (no `reshape`, no `soft_link`) -/
+    2: the `FixedArray` parent (no `reshape`, no `soft_link`), 3 / 4: a passive / active `FixedArray` of which only the
+    element accessors are driven (all-scalar `operator()`, rank 1 also `operator[]`) -/
 def compiles (kind : Nat) (v : View) : Op → Bool
-  | .slice a => a.length = v.dims.length
-  | .subset be => be.length = v.dims.length
-  | .sub1 _ => v.dims.length ≥ 1
-  | .T => v.dims.length = 2
-  | .permute p => p.length = v.dims.length ∧ v.dims.length ≥ 1
-  | .diag _ => v.dims.length = 2
-  | .subdiag _ _ => v.dims.length = 2
-  | .reshape nd => v.dims.length = 1 ∧ kind ≠ 2 ∧ nd.length ≤ (if kind = 1 then 3 else 6)
-  | .softLink => v.dims.length ≥ 1 ∧ kind ≠ 2
+  | .slice a => a.length = v.dims.length ∧ (kind < 3 ∨ a.all fun x => match x with | .at _ => true | _ => false)
+  | .subset be => be.length = v.dims.length ∧ kind < 3
+  | .sub1 _ => v.dims.length ≥ 1 ∧ (kind < 3 ∨ v.dims.length = 1)
+  | .T => v.dims.length = 2 ∧ kind < 3
+  | .permute p => p.length = v.dims.length ∧ v.dims.length ≥ 1 ∧ kind < 3
+  | .diag _ => v.dims.length = 2 ∧ kind < 3
+  | .subdiag _ _ => v.dims.length = 2 ∧ kind < 3
+  | .reshape nd => v.dims.length = 1 ∧ kind < 2 ∧ nd.length ≤ (if kind = 1 then 3 else 6)
+  | .softLink => v.dims.length ≥ 1 ∧ kind < 2
 
 /-- the members that have a `const` overload -/
 def hasConst : Op → Bool
@@ -275,6 +282,15 @@ def hasConst : Op → Bool
 
 /-- the `FixedArray` parents compiled into the harness -/
 def fixedMenu : List (List Nat) := [[4], [3, 4], [3, 3], [2, 3, 4], [2, 3, 4, 5]]
+/-- the `FixedArray`s driven through their element accessors only: passive, active -/
+def fixedElemMenu : List (List Nat) := [[3, 2, 5, 4], [2, 3, 1, 4, 5], [3, 1, 4, 2, 6, 5]]
+def fixedActiveMenu : List (List Nat) := [[4], [3, 4], [2, 3, 4], [3, 2, 5, 4]]
+
+/-- the scalar arguments of an element access (every argument of the call is `i:E`) -/
+def allScalar : List Ix → Option (List EndExpr)
+  | [] => some []
+  | .at e :: r => (allScalar r).map (e :: ·)
+  | _ => none
 
 def freshParent (s : St) (kind : Nat) (rowMajor : Bool) (dims : List Nat) : St × String :=
   let v := fresh rowMajor dims
@@ -301,6 +317,14 @@ def step (s : St) (ws : List String) : St × String :=
     match ds.mapM String.toNat? with
     | some dims => if fixedMenu.contains dims then freshParent s 2 true dims else (s, "bad-op")
     | none => (s, "bad-op")
+  | "efparent" :: ds =>
+    match ds.mapM String.toNat? with
+    | some dims => if fixedElemMenu.contains dims then freshParent s 3 true dims else (s, "bad-op")
+    | none => (s, "bad-op")
+  | "afparent" :: ds =>
+    match ds.mapM String.toNat? with
+    | some dims => if fixedActiveMenu.contains dims then freshParent s 4 true dims else (s, "bad-op")
+    | none => (s, "bad-op")
   | ["contig"] =>
     match s.cur with
     | some v => if v.dims.isEmpty ∨ s.kind = 2 then (s, "bad-op") else (s, s!"contig={if isContiguous v then 1 else 0}")
@@ -320,16 +344,31 @@ def step (s : St) (ws : List String) : St × String :=
     -- a leading `c` selects the const overload of the member: same semantics
     let (isConst, ws') :=
       if ixw.startsWith "c" ∧ ixw ≠ "contig" then (true, (ixw.drop 1).toString :: args) else (false, ws)
+    -- the other overloads of permute
+    let (pform, ws') := match ws' with
+      | "permuteE" :: r => (1, "permute" :: r)
+      | "permuteV" :: r => (2, "permute" :: r)
+      | _ => (0, ws')
     match s.cur, parseOp ws' with
     | some v, some op =>
       if ¬ compiles s.kind v op ∨ (isConst ∧ ¬ hasConst op) then (s, "bad-op") else
+      if pform = 2 ∧ (v.dims.length < 2 ∨ v.dims.length > 6) then (s, "bad-op") else
       if ¬ op.defined v then (s, "err undefined") else
       match op, v.dims with
       | .diag _, [0, _] => ({ s with cur := none }, "ok null")
       | _, _ =>
-      match apply s.checked v op with
+      -- ELEMENT access: its own accessor functions (Array: sum of index*offset; FixedArray: Horner form)
+      let r : Except Err View := match op with
+        | .slice args =>
+          match allScalar args with
+          | some es =>
+            (if s.kind ≥ 2 then fixedElemAccess v.dims es s.checked else elemAccess v es s.checked).map elemView
+          | none => apply s.checked v op
+        | .permute p => if pform = 2 then permuteArgs v p else apply s.checked v op
+        | _ => apply s.checked v op
+      match r with
       | .ok w =>
-        let k := if s.kind = 2 then 0 else s.kind
+        let k := if s.kind = 2 ∨ s.kind = 3 then 0 else if s.kind = 4 then 1 else s.kind
         ({ s with cur := some w, kind := k }, describeFull k s.vol w)
       | .error e => (s, "err " ++ e.name)
     | _, _ => (s, "bad-op")
